@@ -710,7 +710,9 @@ fn transport(setup: &Setup, producer: Producer, mutation: Mutation, consumer: Co
     let probes = gen_probes(spec, scheme, &[source, &target_model], 4);
     let got = exec_probes(spec, scheme, &probes, &target, &class)?;
 
-    if stats.hard && truncated.is_none() {
+    // (a byte flip can close the top-level value early: `{"a":92233}7203...`; a fault placed behind that point is
+    // behind a complete document, and reading no further is what the property's reader is entitled to do)
+    if stats.hard && truncated.is_none() && !flipped {
         return match res {
             Err(_) => Ok(()),
             Ok(()) => Err(v("hard-fault-accepted", class, format!("plan {plan:?} fired but deserialization returned Ok"))),
